@@ -15,6 +15,8 @@ package prodwt
 //	C06  a conflicting authorization bans exactly that id
 //	C10  the raw sync reply parses (reference parser) to key, offset, bitfield
 //	     of the recorded slots and verifies under the server key
+//	C17  GCA-signed server records are listed (GET and sync reply) exactly as
+//	     signed, zero ports and empty locations included
 //	C03  the live week is served with the recorded values and a valid signature
 //	C04  a restart (production catch-up rules, 100000-entry recent list) yields
 //	     the same equipment, bans, window and archive
@@ -249,6 +251,18 @@ func lifeEpisode(work string, seed int64, f *fake) event {
 		l.bad("C06:conflict-did-not-ban-exactly-one-id: status %d err %v banned=%v devices=%d", code, err, sn.Bans[X.id], len(sn.Equipment))
 	}
 	l.counts["conflict_bans"]++
+	// ... also when the conflicting record differs in nothing but coordinates that are not on the globe
+	// (any finite value is a legal field value; the ban rules do not depend on what WattTime can map)
+	Y := mk(uint32(900+rng.Intn(50)), 1000000, 6.0)
+	cy := Y.auth
+	cy.Lat, cy.Long = 95+float64(rng.Intn(1000)), -200
+	cy = cy.Signed(f.gca.Priv)
+	code, _, err = post("/api/v1/authorize-equipment", cy.JSON())
+	sn = s.VerifSnapshot(false)
+	if _, still := sn.Equipment[Y.id]; err != nil || code == 200 || !sn.Bans[Y.id] || still || len(sn.Equipment) != 2 {
+		l.bad("C06:conflict-with-off-globe-coordinates-did-not-ban: status %d err %v banned=%v still listed=%v devices=%d", code, err, sn.Bans[Y.id], still, len(sn.Equipment))
+	}
+	l.counts["conflict_bans"]++
 
 	// ---- C01: refused datagrams change nothing
 	inWin := func(s int64) bool { return s >= int64(off) && s < int64(off)+4032 && s >= 0 }
@@ -346,6 +360,70 @@ func lifeEpisode(work string, seed int64, f *fake) event {
 	}
 	l.counts["c02_sequences"] += 3
 
+	// ---- C17 (server side): GCA-signed server records enter the list exactly as signed
+	posted := map[[32]byte]refenc.AuthServer{}
+	for i, rec := range []refenc.AuthServer{
+		{Location: " no-such-host-a", HTTP: 0, TCP: 0, UDP: 0},
+		{Location: " no-such-host-b", HTTP: 8080, TCP: 0, UDP: 9},
+		{Location: " no-such-host-c", HTTP: 1, TCP: 2, UDP: 3, Banned: true},
+		{Location: "", HTTP: 35015, TCP: 35030, UDP: 35045},
+	} {
+		rec.Pub = refenc.GenKey(rng).Pub
+		rec = rec.Signed(f.gca.Priv)
+		if code, body, err := post("/api/v1/authorized-servers", rec.JSON()); err != nil || code != 200 {
+			l.bad("C17:valid-server-record-refused: record %d status %d err %v %s", i, code, err, body)
+			continue
+		}
+		posted[rec.Pub] = rec
+	}
+	if code, body, err := get("/api/v1/authorized-servers"); err != nil || code != 200 {
+		l.bad("C17:server-list-not-served: status %d err %v", code, err)
+	} else {
+		var raw struct {
+			AuthorizedServers []struct {
+				PublicKey        []int
+				Banned           bool
+				Location         string
+				HttpPort         uint16
+				TcpPort          uint16
+				UdpPort          uint16
+				GCAAuthorization []int
+			}
+		}
+		if err := json.Unmarshal(body, &raw); err != nil {
+			l.bad("C17:server-list-undecodable: %v", err)
+		}
+		seen := 0
+		for _, v := range raw.AuthorizedServers {
+			a := refenc.AuthServer{Banned: v.Banned, Location: v.Location, HTTP: v.HttpPort, TCP: v.TcpPort, UDP: v.UdpPort}
+			for i, x := range v.PublicKey {
+				if i < 32 {
+					a.Pub[i] = byte(x)
+				}
+			}
+			for i, x := range v.GCAAuthorization {
+				if i < 64 {
+					a.Sig[i] = byte(x)
+				}
+			}
+			if !refenc.Verify(f.gca.Pub, a.SigningBytes(), a.Sig) {
+				l.bad("C17:server-entry-does-not-verify: listed entry %x (banned=%v loc=%q ports %d/%d/%d) carries no valid GCA signature over its content", a.Pub[:4], a.Banned, a.Location, a.HTTP, a.TCP, a.UDP)
+			}
+			if want, ok := posted[a.Pub]; !ok {
+				l.bad("C17:server-entered-without-record: %x", a.Pub[:4])
+			} else {
+				seen++
+				if a.Banned != want.Banned || a.Location != want.Location || a.HTTP != want.HTTP || a.TCP != want.TCP || a.UDP != want.UDP || a.Sig != want.Sig {
+					l.bad("C17:server-entry-altered: %x listed as banned=%v loc=%q ports %d/%d/%d, posted banned=%v loc=%q ports %d/%d/%d", a.Pub[:4], a.Banned, a.Location, a.HTTP, a.TCP, a.UDP, want.Banned, want.Location, want.HTTP, want.TCP, want.UDP)
+				}
+			}
+		}
+		if seen != len(posted) {
+			l.bad("C17:server-entry-missing: %d of %d accepted records are listed", seen, len(posted))
+		}
+		l.counts["c17_server_records"] += seen
+	}
+
 	// ---- C10: the raw sync reply
 	sn = s.VerifSnapshot(true)
 	raw, err := syncRaw(A.id)
@@ -368,6 +446,14 @@ func lifeEpisode(work string, seed int64, f *fake) event {
 				l.bad("C10:reply-bitfield-mismatch: index %d bit=%v record=%v", i, got, want)
 				break
 			}
+		}
+		for _, e := range rep.Servers {
+			if want, ok := posted[e.Pub]; !ok || e.Banned != want.Banned || e.Location != want.Location || e.HTTP != want.HTTP || e.TCP != want.TCP || e.UDP != want.UDP || e.Sig != want.Sig {
+				l.bad("C10:reply-serverlist-mismatch: entry %x in the sync reply is not the record the GCA posted", e.Pub[:4])
+			}
+		}
+		if len(rep.Servers) != len(posted) {
+			l.bad("C10:reply-serverlist-mismatch: %d entries in the reply, %d records accepted", len(rep.Servers), len(posted))
 		}
 		l.counts["c10_replies"]++
 	}
@@ -467,8 +553,8 @@ func lifeEpisode(work string, seed int64, f *fake) event {
 		if b, ok := names["equipment-reports.dat"]; !ok || len(b)%80 != 0 {
 			l.bad("C14:unaligned-entry:equipment-reports.dat: present=%v len=%d", ok, len(b))
 		}
-		if b, ok := names["equipment-authorizations.dat"]; !ok || len(b)%148 != 0 || len(b) != 4*148 {
-			l.bad("C14:unaligned-entry:equipment-authorizations.dat: present=%v len=%d want %d", ok, len(b), 4*148)
+		if b, ok := names["equipment-authorizations.dat"]; !ok || len(b)%148 != 0 || len(b) != 6*148 {
+			l.bad("C14:unaligned-entry:equipment-authorizations.dat: present=%v len=%d want %d", ok, len(b), 6*148)
 		}
 		if b, ok := names["gcaPubKey.dat"]; !ok || !bytes.Equal(b, f.gca.Pub[:]) {
 			l.bad("C14:archive-gca-key: present=%v", ok)
